@@ -29,7 +29,9 @@
 (***************************************************************************)
 EXTENDS Naturals, Sequences, FiniteSets, TLC, Json
 
-CONSTANTS MaxN, MaxSoma, NTypes, SEEDK
+CONSTANTS MaxN, MaxSoma, NTypes, SEEDK,
+          CHAIN_ONLY,   \* TRUE: unbranched files (every point continues the previous one)
+          FREE_SEG      \* TRUE: every segment length 0..3 is explored (FALSE: lengths are a seeded function of the structure)
 
 Types == 2..(1 + NTypes)            \* neurite types (axon, basal, apical)
 
@@ -43,9 +45,9 @@ Init == n = 1 /\ par = <<0>> /\ typ = <<1>> /\ seg = <<0>> /\ rad = <<2 + (SEEDK
 SomaLen == Cardinality({i \in 1..n : typ[i] = 1})
 AddPoint ==
   /\ ~done /\ n < MaxN
-  /\ \E p \in Anc(par, n), t \in Types \cup {1} :
-       LET s == ((n * 7 + p * 3 + t + SEEDK) % 4)            \* seeded: segment lengths 0..3
-           r == 1 + ((n * 5 + p + t + SEEDK) % 3) IN          \* seeded: radii 1..3
+  /\ \E p \in (IF CHAIN_ONLY THEN {n} ELSE Anc(par, n)), t \in Types \cup {1} :
+     \E s \in (IF FREE_SEG THEN 0..3 ELSE {(n * 7 + p * 3 + t + SEEDK) % 4}) :      \* segment lengths 0..3
+       LET r == 1 + ((n * 5 + p + t + SEEDK) % 3) IN          \* seeded: radii 1..3
        /\ (t = 1) => (p = n /\ typ[n] = 1 /\ SomaLen < MaxSoma)     \* soma points: a chain listed first
        /\ (t # 1 /\ typ[p] = 1) => TRUE                              \* neurites may start at any soma point
        /\ n' = n + 1 /\ par' = Append(par, p) /\ typ' = Append(typ, t)
@@ -91,9 +93,62 @@ BreakRad(S, i) == IF i = 1 /\ Len(Chain(S)) > 1 /\ ParentType(S) # 0 /\ ParentTy
 Breakpoints(S) == IF Len(Chain(S)) = 1 THEN << <<0, rad[Chain(S)[1]]>>, <<2 * rad[Chain(S)[1]], rad[Chain(S)[1]]>> >>
                   ELSE [i \in 1..Len(Chain(S)) |-> <<Cum(S, i), BreakRad(S, i)>>]
 
+(* ---------------- max_branch_len: a long section is cut by NUMBER OF POINTS (as coded) ---------------- *)
+\* The reader's "branch" of a section is Chain(S): the attach point followed by the section's own points.
+\* _split_long_branches raises the number of parts k = 1, 2, ... until the longest part is <= max_branch_len;
+\* _split_branch_equally cuts the chain into parts of Len \div k points, neighbouring parts sharing one point.
+\* A part needs >= 2 points: splitting stops (with a warning) as soon as one more part would leave Len \div (k + 1) < 2
+\* points per part - the bound is then NOT reached (sparse reconstructions; F24 was the reader raising there).
+MBLS == <<2, 5>>
+Each(c, k) == Len(c) \div k
+Part(c, k, i) == LET e == Each(c, k) IN
+                 IF k = 1 THEN c
+                 ELSE IF i = 1 THEN SubSeq(c, 1, e)
+                 ELSE IF i = k THEN SubSeq(c, (k - 1) * e, Len(c))
+                 ELSE SubSeq(c, (i - 1) * e, i * e)
+GapChain(c) == Len(c) > 1 /\ SinglePointSoma /\ typ[c[1]] = 1 /\ typ[c[2]] # 1
+StepC(c, gap, i) == IF i = 2 /\ gap THEN 0 ELSE seg[c[i]]
+RECURSIVE CumC(_, _, _)
+CumC(c, gap, i) == IF i <= 1 THEN 0 ELSE CumC(c, gap, i - 1) + StepC(c, gap, i)
+RawC(c, gap) == IF Len(c) = 1 THEN 2 * rad[c[1]] ELSE CumC(c, gap, Len(c))
+PartRaw(c, k, i) == RawC(Part(c, k, i), i = 1 /\ GapChain(c))
+MaxPart(c, k) == LET ls == {PartRaw(c, k, i) : i \in 1..k} IN CHOOSE x \in ls : \A y \in ls : y <= x
+RECURSIVE KFrom(_, _, _)
+KFrom(c, m, k) == IF MaxPart(c, k) <= m \/ Each(c, k + 1) < 2 \/ k >= 11 THEN k ELSE KFrom(c, m, k + 1)
+KOf(c, m) == KFrom(c, m, 1)
+Reached(c, m) == MaxPart(c, KOf(c, m)) <= m           \* FALSE: too few traced points to get below the bound
+SplitOK(m) == TRUE
+PartKey(S, m, i) == IF i = 1 THEN S.first ELSE Part(Chain(S), KOf(Chain(S), m), i)[2]
+LastKey(S, m) == PartKey(S, m, KOf(Chain(S), m))
+SecOf(first) == CHOOSE T \in Sections : T.first = first
+PartBps(S, pc, i) ==
+  IF Len(pc) = 1 THEN << <<0, rad[pc[1]]>>, <<2 * rad[pc[1]], rad[pc[1]]>> >>
+  ELSE [j \in 1..Len(pc) |-> <<CumC(pc, i = 1 /\ GapChain(pc), j),
+                                IF j = 1 /\ i = 1 /\ ParentType(S) # 0 /\ ParentType(S) # S.type THEN rad[pc[2]] ELSE rad[pc[j]]>>]
+SplitSecs(m) ==
+  UNION {LET c == Chain(S) k == KOf(c, m) IN
+         {[first |-> PartKey(S, m, i),
+           parent |-> IF i > 1 THEN PartKey(S, m, i - 1) ELSE IF ParentSec(S) = 0 THEN 0 ELSE LastKey(SecOf(ParentSec(S)), m),
+           len |-> (LET raw == PartRaw(c, k, i) IN IF raw = 0 THEN 1 ELSE raw),
+           type |-> S.type, parts |-> k, reached |-> Reached(c, m),
+           bps |-> PartBps(S, Part(c, k, i), i)] : i \in 1..k} : S \in Sections}
+\* every part is at most max_branch_len long (before the zero-length convention), and the parts of a section add up to it
+SplitRespectsTheBound ==
+  done => \A mi \in 1..Len(MBLS) : SplitOK(MBLS[mi]) =>
+            \A S \in Sections : LET c == Chain(S) k == KOf(c, MBLS[mi]) IN
+               /\ Reached(c, MBLS[mi]) => \A i \in 1..k : PartRaw(c, k, i) <= MBLS[mi]
+               /\ \A i \in 1..k : Len(Part(c, k, i)) >= 2 \/ k = 1
+               /\ (Len(c) > 1 => RawC(c, GapChain(c)) = CumC(c, GapChain(c), Len(c)))
+SplitKeepsTheTracedLength ==
+  done => \A mi \in 1..Len(MBLS) : SplitOK(MBLS[mi]) =>
+            \A S \in Sections : LET c == Chain(S) k == KOf(c, MBLS[mi]) IN
+               Len(c) > 1 => (LET RECURSIVE Sum(_) Sum(i) == IF i = 0 THEN 0 ELSE PartRaw(c, k, i) + Sum(i - 1) IN Sum(k)) = RawC(c, GapChain(c))
+
 Expected == [n |-> n, par |-> par, typ |-> typ, seg |-> seg, rad |-> rad, connector |-> NeedsConnector,
              secs |-> {[first |-> S.first, parent |-> ParentSec(S), len |-> Length(S), type |-> S.type, pts |-> S.pts,
-                        bps |-> Breakpoints(S)] : S \in Sections}]
+                        bps |-> Breakpoints(S)] : S \in Sections},
+             split |-> [mi \in 1..Len(MBLS) |-> [mbl |-> MBLS[mi], ok |-> SplitOK(MBLS[mi]),
+                                                   secs |-> IF SplitOK(MBLS[mi]) THEN SplitSecs(MBLS[mi]) ELSE {}]]]
 
 (* sanity of the specification itself *)
 EveryPointInExactlyOneSectionBody ==
